@@ -13,6 +13,8 @@ package wk
 //                                           scans again, removes everything it wrote (see rawRound).
 
 import (
+	"strings"
+	"runtime"
 	"bytes"
 	"crypto/sha1"
 	"encoding/binary"
@@ -170,6 +172,20 @@ func init() {
 			return nil, err
 		}
 		return map[string]bool{"started": true}, nil
+	}
+
+	// c06.deleting: is a background instance / repo deletion still running?  (a goroutine of the process is inside
+	// datastore.(*repoT).deleteData or storage.DeleteDataInstance: the code's own completion point)
+	APIs["c06.deleting"] = func(args json.RawMessage) (interface{}, error) {
+		buf := make([]byte, 1<<20)
+		n := runtime.Stack(buf, true)
+		for n == len(buf) {
+			buf = make([]byte, 2*len(buf))
+			n = runtime.Stack(buf, true)
+		}
+		dump := string(buf[:n])
+		running := strings.Contains(dump, "datastore.(*repoT).deleteData") || strings.Contains(dump, "storage.DeleteDataInstance")
+		return map[string]bool{"running": running}, nil
 	}
 
 	APIs["c06.dump"] = func(args json.RawMessage) (interface{}, error) {
